@@ -23,7 +23,7 @@ NA = {
 CHECKS = {
  "C06": dict(engine="typing-world", category="exploration", design_ref="DESIGN.md 3.1",
    technique="deterministic simulation: seeded multi-client call histories over process-global class state, each answer compared with the same query issued first in a pristine fork",
-   text="Seeded search over call histories (1-3 interleaved clients, 12-60 operations: instantiate / is_valid / overhangs / target / placeholder / characterize / structure / class definitions at run time (same-name, cross-role, sub-classes of concrete parts) / registry loading and assemblies as priming / handles dropped and record objects re-created) over kit, generic and run-defined classes and real kit plasmids incl. rotated, synthetic, illegal-site and linear-twin records; every observing call is compared with the same call made FIRST in a process forked from a never-used template, and a sample of oracle answers with really fresh interpreters. Quick: 1200 random histories + 400 pair-prefixed ones; thorough: 36000 random + every ordered pair of kit classes as a forced prefix. Sampling, not proof: the right level for a property quantified over unbounded histories whose only carrier is process-global state.",
+   text="Seeded search over call histories (1-3 interleaved clients, 12-60 operations: instantiate / is_valid / overhangs / target / placeholder / characterize / structure / class definitions at run time (same-name, cross-role, sub-classes of concrete parts incl. ones re-targeted to another cutter) / registry loading and assemblies as priming / handles dropped and record objects re-created) over kit, generic and run-defined classes and real kit plasmids incl. rotated, synthetic, illegal-site and linear-twin records; every observing call is compared with the same call made FIRST in a process forked from a never-used template, and a sample of oracle answers with really fresh interpreters. Quick: 1200 random histories + 400 pair-prefixed ones; thorough: 36000 random + every ordered pair of kit classes as a forced prefix. Sampling, not proof: the right level for a property quantified over unbounded histories whose only carrier is process-global state.",
    note="Trusts: fork of the pristine template == fresh interpreter (cross-checked against fresh interpreters on a sample every run); Biopython/property_cached as shipped; operations are atomic (library is synchronous). Oracle is the same code without history, so a class that is wrong with and without history alike is not flagged (that is C04/C05)."),
  "C07": dict(engine="assembly-world", category="fault_enumeration", design_ref="DESIGN.md 3.2",
    technique="deterministic simulation with fault injection: seeded assemble() histories over shared record objects, exceptions injected at every enumerated crash point (element-call boundaries, interior source lines), snapshot-purity and fresh-process refinement oracles",
